@@ -205,6 +205,10 @@ def run(ctx):
     # one referenced type + one member name used several ways (the compiled-type cache): order of assignments / inline copy
     from .. import aliasfam
     aliasfam.run_c19(ctx, ctx.rng, ctx.n(60, 800), impl, CODECS)
+    # one named type under one component name in several contexts (alternative, tagged / DEFAULT / OPTIONAL member, SET): the type alone in
+    # its module vs among the others, reference vs definition in place; another name for a recursive type
+    from .. import ctxfam
+    ctxfam.run(ctx, 'C19', ctx.rng, ctx.n(36, 400), impl, CODECS)
 
 
 def replay(ctx, path):
